@@ -14,7 +14,7 @@ from vlib.harness import Acc
 LEVEL = "fault_enumeration"
 RULE = ("case = (transport in {RTU/UDP, AA55/UDP, Modbus/TCP}, keep-alive, timeout, retries, per-transmission fault "
         "script, TCP connect outcomes, connect latency); exhaustive over all scripts of length retries+1 <= 3 from a "
-        "14-action palette (13 of the property + exact tie) (and connect-outcome scripts x a 5-action palette on TCP), Hypothesis-sampled for retries "
+        "15-action palette (13 of the property + exact tie + restarted fragment) (and connect-outcome scripts x a 5-action palette on TCP), Hypothesis-sampled for retries "
         "<= 6 with free delays on a T/16 grid. Non-trivial = script contains at least one action other than a valid "
         "answer in time (or a non-ok connect outcome); distinct by (configuration, script).")
 ASSUMPTIONS = [
@@ -36,6 +36,7 @@ def palette(transport):
     return [
         ["drop"], ["answer", 0], ["answer", 8], ["answer", 24], ["answer", 16], ["garbage", 4], ["short", 4], ["bad", 4],
         ["exc", 4, 2], ["frag", 9, 4, 8], ["lone", 9, 4], ["dup", 4, 8], closes, ["senderr", "ECONNREFUSED"],
+        ["pieces", [["head", 9, 2], ["head", 11, 5]]],   # a fragment, then the inverter starts its answer over (restarted fragment)
     ]
 
 
@@ -152,6 +153,9 @@ def hyp_job(job):
             st.tuples(st.just("bad"), tick_any), st.tuples(st.just("exc"), tick_any, st.integers(0, 255)),
             st.tuples(st.just("frag"), cut, tick_any, tick_any), st.tuples(st.just("lone"), cut, tick_any),
             st.tuples(st.just("dup"), tick_any, tick_any), closes, st.tuples(st.just("senderr"), errn),
+            st.lists(st.one_of(st.tuples(st.sampled_from(("head", "tail")), cut, tick_any).map(list),
+                               st.tuples(st.sampled_from(("full", "garbage")), tick_any).map(list)), min_size=1, max_size=4).map(
+                lambda ps: ("pieces", sorted(ps, key=lambda p: p[-1]))),
         ).map(list)
 
     @st.composite
@@ -191,8 +195,8 @@ def run(ctx):
         for transport in ("udp", "tcp"):
             jobs.append((transport, True, 1.0, 3, "scripts"))  # depth 4: 28,561 scripts each
     jobs.sort(key=lambda j: -j[3])
-    ctx.shard(enum_job, jobs, "exhaustive fault scripts to depth retries+1 (14-action palette (13 of the property + exact tie); TCP connect outcomes x 5 actions)")
-    ctx.exhaustive_parts.append("all 14^(R+1) scripts for R in 0..2 per transport/keep-alive; all non-ok TCP connect "
+    ctx.shard(enum_job, jobs, "exhaustive fault scripts to depth retries+1 (15-action palette (13 of the property + exact tie + restarted fragment); TCP connect outcomes x 5 actions)")
+    ctx.exhaustive_parts.append("all 15^(R+1) scripts for R in 0..2 per transport/keep-alive; all non-ok TCP connect "
                                 "scripts of length R+1 x 5^(R+1) action scripts" + ("" if ctx.quick else "; depth 4 on UDP/TCP keep-alive"))
     n = ctx.pick(4000, 60000)
     ctx.shard(hyp_job, [(ctx.seed * 1000 + i, n // 16) for i in range(16)], "hypothesis random scripts (retries <= 6, free delays)")
